@@ -762,6 +762,14 @@ func (w *World) doAnswer(op Op) {
 		name := subj[4:]
 		d := w.Svc.defFor(name, w.CIDs())
 		if d == nil || d.Missing {
+			if d != nil && (d.ErrMsg != "" || d.ErrData != "") {
+				e := `{"error":{"code":"system.notFound","message":` + jstr(d.ErrMsg)
+				if d.ErrData != "" {
+					e += `,"data":` + d.ErrData
+				}
+				w.mq.Complete(p, []byte(e+`}}`), nil)
+				return
+			}
 			w.mq.Complete(p, errJSON("system.notFound"), nil)
 			return
 		}
